@@ -26,7 +26,7 @@ SEEDS = [0, 1, 2, 3, 17, 4242, 12345, "random"]
 
 
 def shards(tier, seed, scale):
-    halves = 2 if tier == "quick" else 8
+    halves = 2 if tier == "quick" else 4
     n = int((140 if tier == "quick" else 600) * scale)
     out = []
     for h in range(halves):
